@@ -130,23 +130,13 @@ func inlineNewHelpers(initial []*packages.Package, all []*packages.Package, goar
 		if pk.Module != nil && pk.Module.GoVersion != "" {
 			goVersion = "go" + pk.Module.GoVersion
 		}
-		changedAny := false
-		for round := 0; round < 4; round++ {
-			changed, err := inlineRound(sp, res, round)
-			if err != nil {
-				return nil, err
-			}
-			if !changed {
-				break
-			}
-			changedAny = true
-			// re-parse and re-check
+		recheck := func() error {
 			nfset := token.NewFileSet()
 			var asts []*ast.File
 			for _, f := range sp.files {
 				af, err := parser.ParseFile(nfset, f.name, f.src, parser.ParseComments|parser.SkipObjectResolution)
 				if err != nil {
-					return nil, fmt.Errorf("normalised source does not parse: %v", err)
+					return fmt.Errorf("normalised source does not parse: %v", err)
 				}
 				f.ast = af
 				asts = append(asts, af)
@@ -173,9 +163,50 @@ func inlineNewHelpers(initial []*packages.Package, all []*packages.Package, goar
 			}
 			npkg, _ := conf.Check(sp.path, nfset, asts, info)
 			if terr != nil {
-				return nil, fmt.Errorf("normalised source does not type-check: %v", terr)
+				return fmt.Errorf("normalised source does not type-check: %v", terr)
 			}
 			sp.fset, sp.info, sp.pkg = nfset, info, npkg
+			return nil
+		}
+		changedAny := false
+		for round := 0; round < 4; round++ {
+			changed, err := inlineRound(sp, res, round)
+			if err != nil {
+				return nil, err
+			}
+			if !changed {
+				break
+			}
+			changedAny = true
+			if err := recheck(); err != nil {
+				return nil, err
+			}
+		}
+		// scalar replacement of local struct variables whose fields are only ever used one by one
+		{
+			saved := make([][]byte, len(sp.files))
+			for i, f := range sp.files {
+				saved[i] = f.src
+			}
+			sfset, sinfo, spkg := sp.fset, sp.info, sp.pkg
+			sasts := make([]*ast.File, len(sp.files))
+			for i, f := range sp.files {
+				sasts[i] = f.ast
+			}
+			notes := len(res.Notes)
+			if sraRound(sp, res) {
+				if err := recheck(); err != nil {
+					// not applied: the tree is analysed without this step
+					for i, f := range sp.files {
+						f.src, f.ast = saved[i], sasts[i]
+					}
+					sp.fset, sp.info, sp.pkg = sfset, sinfo, spkg
+					res.Notes = res.Notes[:notes]
+					res.Skipped = append(res.Skipped, "scalar replacement abandoned: "+err.Error())
+				} else {
+					changedAny = true
+				}
+			}
 		}
 		if changedAny {
 			for _, f := range sp.files {
